@@ -179,7 +179,13 @@ def load_known_findings(path: str = KNOWN_FINDINGS):
 def finish(ctx: Ctx, t0: float, evidence_dir: Optional[str] = None,
            write: bool = True, explanation: str = '') -> int:
   """Prints the verdict, writes evidence and replay files, returns exit code."""
-  ctx.check_floors()
+  try:
+    ctx.check_floors()
+  except index.AnalysisError as e:
+    if not ctx.violations:
+      raise
+    # a rule lost its subjects AND other rules report: the violations stand
+    print(f'ANALYSIS-ERROR property={ctx.prop} (floor, other rules report below): {e}')
   known, _ = load_known_findings()
   known_hits = []
   fresh = []
